@@ -16,7 +16,7 @@ EXHAUSTIVE = {"quick": False, "thorough": False}
 
 SCHEMA = [Opt("s", "str", 0, b"D"), Opt("sl", "str", LIST, None), Opt("i", "int", 0, 0)]
 
-ATOMS = [bytes([c]) for c in b"\"'\\${}:-0789afgxntevrb\n\r \t#/*=+,()A|"] + [b"\xe9", b"${V1}", b"${V2:-d}", b"${V3}", b"${V2}", b"\\\n", b"${V3:-d}", b"${V1:-x}", b"${V2:-}"]
+ATOMS = [bytes([c]) for c in b"\"'\\${}:-0789afgxntevrb\n\r \t#/*=+,()A|"] + [b"\xe9", b"${V1}", b"${V2:-d}", b"${V3}", b"${V2}", b"\\\n", b"${V3:-d}", b"${V1:-x}", b"${V2:-}", b"\\400", b"\\777", b"\\501", b"\\377", b"\\412", b"\\101", b"\\x41", b"\\xff"]
 ENVS = [("V1", b"val\"q\\b}"), ("V2", None), ("V3", b"")]
 WELL = re.compile(rb"\$\{[A-Za-z0-9_]+(:-[^}\"'\n\\$]*)?\}")
 
